@@ -1,0 +1,32 @@
+//! Verification hooks for the private modules of `fixed` (feature `verif-hooks`).
+//! Forwarders only; re-exported by `crate::verif_hooks`.
+
+use super::layout::{Layout, LayoutModifiers};
+
+/// `fixed::chars::is_ligature_making_kar`
+pub fn is_ligature_making_kar(c: char) -> bool {
+    super::chars::is_ligature_making_kar(c)
+}
+
+/// A parsed fixed layout (`fixed::layout::Layout`).
+pub struct LayoutProbe(Layout);
+
+impl LayoutProbe {
+    /// `Layout::parse` on the `layout` object of a layout file given as JSON text.
+    pub fn parse(layout_object_json: &str) -> Option<Self> {
+        serde_json::from_str::<serde_json::Value>(layout_object_json)
+            .ok()
+            .and_then(Layout::parse)
+            .map(LayoutProbe)
+    }
+
+    /// `Layout::get_char_for_key`
+    pub fn get_char_for_key(&self, key: u16, alt_gr: bool, fixed_numpad: bool) -> Option<String> {
+        let modifier = if alt_gr {
+            LayoutModifiers::AltGr
+        } else {
+            LayoutModifiers::Normal
+        };
+        self.0.get_char_for_key(key, modifier, fixed_numpad)
+    }
+}
